@@ -48,7 +48,9 @@ class Continue(Exception):
 class Machine:
     """Concrete evaluator over {None, False, True, ints, strs, Sym}; hooks give meaning to calls."""
 
-    def __init__(self, call=None, isinstance_=None, subscript=None, names=None, contains=None, expr=None):
+    def __init__(self, call=None, isinstance_=None, subscript=None, names=None, contains=None, expr=None,
+                 order=None):
+        self.order = order
         self.expr = expr
         self.call = call
         self.isinstance_ = isinstance_
@@ -68,6 +70,11 @@ class Machine:
             raise AnalysisError(f'finite: unbound name {e.id}')
         if isinstance(e, ast.UnaryOp) and isinstance(e.op, ast.Not):
             return not self.truth(self.ev(e.operand, st))
+        if isinstance(e, ast.BinOp) and isinstance(e.op, (ast.Add, ast.Sub)):
+            l, r = self.ev(e.left, st), self.ev(e.right, st)
+            if type(l) is int and type(r) is int:
+                return l + r if isinstance(e.op, ast.Add) else l - r
+            return Sym(f'({l!r}{"+" if isinstance(e.op, ast.Add) else "-"}{r!r})')
         if isinstance(e, ast.BoolOp):
             v = None
             for x in e.values:
@@ -91,6 +98,10 @@ class Machine:
                     r = left == right
                 elif isinstance(op, ast.NotEq):
                     r = left != right
+                elif isinstance(op, (ast.Lt, ast.Gt, ast.LtE, ast.GtE)) and type(left) is int and type(right) is int:
+                    r = {ast.Lt: left < right, ast.Gt: left > right, ast.LtE: left <= right, ast.GtE: left >= right}[type(op)]
+                elif isinstance(op, (ast.Lt, ast.Gt, ast.LtE, ast.GtE)) and self.order is not None:
+                    r = self.order(op, left, right)
                 elif isinstance(op, (ast.In, ast.NotIn)) and self.contains is not None:
                     r = self.contains(left, c, st)
                     if isinstance(op, ast.NotIn):
@@ -165,7 +176,7 @@ class Machine:
             raise Break()
         if isinstance(s, ast.Continue):
             raise Continue()
-        if isinstance(s, ast.Pass):
+        if isinstance(s, (ast.Pass, ast.Assert)):
             return st
         if isinstance(s, ast.Raise):
             raise Return(('raise', ast.unparse(s.exc) if s.exc is not None else ''))
